@@ -66,6 +66,17 @@ CHECKS = {
                  "no other code writes the guarded fields - so a rejected attempt changes nothing and an accepted one satisfies the invariant.",
         "note": NOTE,
     },
+    "C12": {
+        "technique": "operator/limit/exclusivity table extraction from the nested tests of CheckValue and AddCategory; reaching-definition terms "
+                     "of the compared value (conversion before comparison); structural recognition of the NaN-skipping min/max scan; "
+                     "CFG must-pass-through of the default-value assertions; who-may-write of the verdict memo",
+        "level": "For all limit configurations and units: each (limit, exclusivity) case is tested with its own operator in NaN-rejecting form "
+                 "and reports that operator and limit; the compared value is always the amount converted to the category's default unit; the "
+                 "Array scan skips NaNs first and hands both extremes to the same check; scalar kinds validate their whole amount; the verdict "
+                 "memo is only written from the object's own validation; every given or inherited default value passes the assertions against "
+                 "the final limits before a category is stored.",
+        "note": NOTE,
+    },
     "C13": {
         "technique": "who-may-write enumeration of value-object state; provenance/ownership abstract interpretation over every mutation sink "
                      "of the library with call-site obligations (fresh vs. operand-owned, two container levels); must-return-self of copy hooks; "
